@@ -324,6 +324,80 @@ def run_kvs_value_independence(ctx):
             shutil.rmtree(root, ignore_errors=True)
 
 
+ODD_KEYS = ["users//ann", "users/./bob", "tmp/../users/bob", "users/ann/", "./top", "../leak", "/abs", "users/../top",
+            "users/ann/.", "", ".", ".."]
+
+
+def run_odd_keys(ctx):
+    """other keys are unaffected: keys with an empty, `.` or `..` level (or a leading `/`) name - if the store
+    accepts them at all - entries of their own.  Ordinary keys are set, each odd key is then set (a refusal is
+    counted, not judged), and every ordinary key is read through the same store object and through one opened
+    afterwards on the same directory; nothing may appear outside the store directory.  Both stores."""
+    import pandas as pd
+    from klongpy import KlongInterpreter
+    from klongpy.db.sys_fn_kvs import KeyValueStorage, TableStorage
+    from klongpy.db.sys_fn_db import Table
+    for kind in ("kvs", "tables"):
+        outer = ctx.mkdtemp()
+        root = os.path.join(outer, "store")
+        os.makedirs(root)
+        klong = KlongInterpreter()
+
+        def mk():
+            return KeyValueStorage(root, max_memory=2 ** 20) if kind == "kvs" else TableStorage(root, max_memory=2 ** 20)
+
+        def val(i):
+            if kind == "kvs":
+                return [i, i + 1]
+            return Table(pd.DataFrame({"a": [i, i + 1], "b": [10 * i, 10 * i + 1]}))
+
+        def read(store, k):
+            v = store.get(k) if hasattr(store, "get") else store[k]
+            if kind == "kvs":
+                return canon(v)
+            return "U" if not isinstance(v, Table) else sorted(map(tuple, v.get_dataframe().values.tolist()))
+
+        store = mk()
+        ordinary = {"top": 1, "users/ann": 3, "users/bob": 5, "leak": 7, "abs": 9}
+        try:
+            klong["st"] = store
+            for k, i in ordinary.items():
+                store.set(k, val(i))
+            want = {k: read(store, k) for k in ordinary}
+            accepted = []
+            for j, ok in enumerate(ODD_KEYS):
+                case = dict(kind="odd-keys", store=kind, ordinary=sorted(ordinary), odd_key=ok)
+                try:
+                    store.set(ok, val(100 + 2 * j))
+                    accepted.append(ok)
+                    ctx.bump(f"{kind}:odd-key-accepted")
+                except Exception:
+                    ctx.bump(f"{kind}:odd-key-refused")
+                ctx.count(("odd-keys", kind, ok), nontrivial=True)
+                outside = sorted(x for x in os.listdir(outer) if x != "store")
+                if outside:
+                    ctx.oracle_fail(f"{kind}:odd-key:writes-outside-store", case, "only the store directory", repr(outside))
+                    break
+            for phase in ("same-store", "reopened"):
+                if phase == "reopened":
+                    store.cache.executor.shutdown(wait=True)
+                    store = mk()
+                for k in ordinary:
+                    case = dict(kind="odd-keys", store=kind, ordinary=sorted(ordinary), odd_keys_accepted=accepted, read=k, through=phase)
+                    try:
+                        got = read(store, k)
+                    except Exception as e:
+                        got = f"raises {type(e).__name__}"
+                    if got != want[k]:
+                        ctx.oracle_fail(f"{kind}:other-keys-unaffected", case, repr(want[k]), repr(got),
+                                        "a set of another key changed what this key reads")
+        except Exception as e:
+            ctx.oracle_fail(f"{kind}:odd-keys:raises:{type(e).__name__}", dict(kind="odd-keys", store=kind), "the operations return", repr(e))
+        finally:
+            store.cache.executor.shutdown(wait=True)
+            shutil.rmtree(outer, ignore_errors=True)
+
+
 def run_klong_kvs(ctx, drv, nseq, length):
     """`d,k,v` / `d?k` through the interpreter over a store with a small cache limit"""
     from klongpy import KlongInterpreter
@@ -614,6 +688,7 @@ def run(ctx):
             ops = gen_ops(ctx.rng, ctx.rng.randrange(2, 14 if quick else 40), keys, maxmem)
             run_cache_sequence(ctx, ops, maxmem, drv, "fcache")
         run_kvs_value_independence(ctx)
+        run_odd_keys(ctx)
         run_klong_kvs(ctx, drv, 80 if quick else 500, 12 if quick else 40)
         run_tables_pending_inserts(ctx)
         run_tables(ctx, drv, 80 if quick else 500)
